@@ -62,8 +62,15 @@ Work ==
   \cup {[kind |-> "num", sym |-> "num", expr |-> "num(A)", pairs |-> c] : c \in Chunks(Pairs(IL, {Nil}))}
   \cup {[kind |-> "bin", sym |-> s, expr |-> "A " \o s \o " B", pairs |-> c] : s \in {"+", "-", "*"}, c \in Chunks(Pairs(IM, DecLattice)) \cup Chunks(Pairs(DecLattice, IM))}
 
+\* "an operation with a decimal operand is carried out in double precision": mixing an integer with a decimal is the same
+\* as converting the integer first - A op B and num(A) op num(B) must give the very same double (relation, no expected value)
+MixSyms == <<"+", "-", "*", "/", "<", "==">>
+MixWork ==
+  UNION {{[kind |-> "same2", sym |-> MixSyms[o], expr |-> "A " \o MixSyms[o] \o " B", expr2 |-> "num(A) " \o MixSyms[o] \o " num(B)", pairs |-> c]
+            : c \in Chunks(Pairs(IL, DecLattice)) \cup Chunks(Pairs(DecLattice, IL))} : o \in DOMAIN MixSyms}
+
 VARIABLE p
-Init == p \in Work
+Init == p \in Work \cup MixWork
 Next == UNCHANGED p
 Emit == PrintT("@@S " \o ToJson([prop |-> "C03", key |-> p.expr,
           steps |-> <<IF "expr2" \in DOMAIN p
